@@ -7,16 +7,22 @@ A case is a history:
     {"mode": "async", "kind": "tcp"|"udp", "progs": [[op, …], …], "sched": [[caller, hops] | [], …],
      "init_hops": h, "fac_hops": f}
 
-* `progs[i]` is the call sequence of caller i: serve | shutdown | close | probe (lifecycle calls, each run as its own
-  asyncio task), cancel:<j> (task.cancel() on caller j's serve_forever task), echo (a fresh client connects, sends one
-  line / datagram and waits for the echo), conn / disc (a persistent TCP client connects / disconnects).
+* `progs[i]` is the call sequence of caller i: serve | shutdown | close | probe | activate (`server_activate()`) | aenter
+  (`async with server:` entered, i.e. `__aenter__()`; the exit is a `close`) (lifecycle calls, each run as its own
+  asyncio task), cancel:<j> (task.cancel() on caller j's serve_forever / server_activate task), echo (a fresh client
+  connects, sends one line / datagram and waits for the echo), conn / disc (a persistent TCP client connects / disconnects).
+  Histories with `activate` / `aenter` have several tasks inside `server_activate()` at once (activation lock contended);
+  they are judged by the oracle only (the Lean machine has no activation lock: no trace admission for them).
   A caller issues its next call only when the previous one has returned (a caller inside serve_forever stays there).
 * `sched` has one entry per loop turn: `[i, hops]` releases caller i's next call before that turn (the call's task
   first yields `hops` times with sleep(0): this moves the first segment of the call relative to the other wake-ups of
   the same turn), `[]` is a plain turn.  When the schedule is exhausted the remaining calls are released as soon as
   their caller is free; then the epilogue caller (index n) runs: quiet, shutdown, close, quiet.
 * `init_hops`: suspension points inside the request handler's service_init (the close-guard window of serve_forever);
-  `fac_hops`: suspension points inside the listener factory (backend.getaddrinfo is overridden: no resolver thread).
+  `fac_hops`: loop turns for which the listener factory parks before binding (backend.create_tcp_listeners /
+  create_udp_listeners of the harness backend, passed through the public `backend=` parameter);
+  `fac_plan` (optional list): the k-th call of the listener factory parks for fac_plan[k] loop turns instead (calls
+  beyond the list use fac_hops): a first activation that is slow and a second one that is fast, or the reverse.
 
 Canonical lines, in the order the segments really executed:
     call <i> <op> / ret <i> <outcome>     logged inside the call's own task immediately before / after the real call
@@ -47,17 +53,37 @@ from easynetwork.servers.async_udp import AsyncUDPNetworkServer
 from easynetwork.servers.handlers import AsyncDatagramRequestHandler, AsyncStreamRequestHandler
 
 QUIET_LIMIT = 400
-LIFECYCLE = ("serve", "shutdown", "close", "probe")
+LIFECYCLE = ("serve", "shutdown", "close", "probe", "activate", "aenter")
+ACTIVATORS = ("activate", "aenter")
 
 
 class DetBackend(AsyncIOBackend):
-    """the asyncio backend with a resolver that does not use a thread (numeric hosts only)"""
+    """the asyncio backend (public `backend=` parameter of the servers) with
+    * a listener factory that parks for a scripted number of loop turns before the listeners are bound (`fac_hops`, or
+      `fac_plan[k]` for the k-th call of the factory): the window in which `server_activate()` holds the activation
+      lock and sits in the factory cancel scope.  (For a numeric host the stock resolver never suspends outside the
+      cancel-shielded `gather`, so the factory would always take exactly two turns.)
+    * a resolver that does not use a thread (numeric hosts only)"""
 
     fac_hops = 1
+    fac_plan: tuple[int, ...] = ()
+    fac_calls = 0
+
+    async def _park(self) -> None:
+        k = self.fac_calls
+        self.fac_calls = k + 1
+        for _ in range(self.fac_plan[k] if k < len(self.fac_plan) else self.fac_hops):
+            await asyncio.sleep(0)
+
+    async def create_tcp_listeners(self, *args, **kwargs):  # type: ignore[override]
+        await self._park()
+        return await super().create_tcp_listeners(*args, **kwargs)
+
+    async def create_udp_listeners(self, *args, **kwargs):  # type: ignore[override]
+        await self._park()
+        return await super().create_udp_listeners(*args, **kwargs)
 
     async def getaddrinfo(self, host, port, family=0, type=0, proto=0, flags=0):  # type: ignore[override]
-        for _ in range(self.fac_hops):
-            await asyncio.sleep(0)
         return socket.getaddrinfo(host, port, family=family, type=type, proto=proto, flags=flags | socket.AI_NUMERICHOST)
 
 
@@ -129,6 +155,7 @@ class Run:
     def make_server(self) -> None:
         be = DetBackend()
         be.fac_hops = int(self.case.get("fac_hops", 1))
+        be.fac_plan = tuple(int(x) for x in self.case.get("fac_plan", ()))
         hops = int(self.case.get("init_hops", 0))
 
         async def mk():
@@ -186,6 +213,10 @@ class Run:
                 await srv.shutdown()
             elif op == "close":
                 await srv.server_close()
+            elif op == "activate":
+                await srv.server_activate()
+            elif op == "aenter":
+                await srv.__aenter__()
             elif op == "probe":
                 res = f"flags {int(srv.is_serving())} {int(srv.is_listening())}"
         except BaseException as e:  # noqa: BLE001 (the outcome is the observable)
@@ -206,9 +237,10 @@ class Run:
             self.tasks[i] = self.loop.create_task(self._call(i, op, hops))
         elif op.startswith("cancel:"):
             j = int(op.split(":")[1])
-            if self.busy(j) and self.cur_op.get(j) == "serve" and any(ln == f"call {j} serve" for ln in self.lines):
-                # only once the serve call has really started (its first segment ran)
-                last_call = max(k for k, ln in enumerate(self.lines) if ln == f"call {j} serve")
+            opj = self.cur_op.get(j)
+            if self.busy(j) and (opj == "serve" or opj in ACTIVATORS) and any(ln == f"call {j} {opj}" for ln in self.lines):
+                # only once the call has really started (its first segment ran)
+                last_call = max(k for k, ln in enumerate(self.lines) if ln == f"call {j} {opj}")
                 if not any(ln.startswith(f"ret {j} ") for ln in self.lines[last_call:]):
                     self.log(f"cancel {j}")
                     self.tasks[j].cancel()
